@@ -50,6 +50,7 @@ class Scope(BaseScope):
         self.top = top
         self.locals = set()   # type: set[str]
         self.globals = set()  # type: set[str]
+        self.nonlocals = set()  # type: set[str]
 
     @property
     def filename(self):
@@ -110,6 +111,19 @@ class Flow(object):
         name.scope = self.scope
         if name.name in self.scope.globals and self.scope is not self.scope.top:
             self.scope.top.add_global(name)
+        elif name.name in self.scope.nonlocals:
+            # rebinds a variable of an enclosing function: the name stays
+            # visible here but does not become a local of this scope
+            funcs = []
+            owner = getattr(self.scope, 'parent', None)
+            while owner is not None:
+                if isinstance(owner, FuncScope):
+                    funcs.append(owner)
+                owner = getattr(owner, 'parent', None)
+            owners = [f for f in funcs if name.name in f.locals] or funcs
+            if owners:
+                name.scope = owners[0]
+            insert_loc(self._names, name)
         else:
             self.scope.locals.add(name.name)
             insert_loc(self._names, name)
